@@ -1041,6 +1041,18 @@ SPECS = [
     dict(name="get_slice_2d", file="pyresample/geometry.py", func="_get_slice", mode="generator", raises=True,
          params=[("segments", INT), ("shape", tup(INT, INT))], yield_type=tup(sl(INT), sl(opt(INT))), select=_whole,
          owners=["C19", "C03"]),
+    # ---- C02 / C03 / C05: which coordinates are legal ----------------------------------------------
+    dict(name="kd_valid_input", file="pyresample/kd_tree.py", func="_get_valid_input_index", mode="fragment",
+         params=[("source_lons", NRAT), ("source_lats", NRAT)], outputs=["valid_input_index"], output_types={"valid_input_index": BOOL},
+         select=lambda fn: [st for st in fn.body if isinstance(st, ast.Assign) and ast.unparse(st.targets[0]) == "valid_input_index"][:1],
+         post_guard=["source_lons = np.asanyarray(source_lons).ravel()", "source_lats = np.asanyarray(source_lats).ravel()"],
+         owners=["C02", "C03"]),
+    dict(name="kd_valid_output", file="pyresample/kd_tree.py", func="_get_valid_output_index", mode="fragment",
+         params=[("target_lons", NRAT), ("target_lats", NRAT), ("valid_output_index", BOOL)],
+         outputs=["valid_output_index"], output_types={"valid_output_index": BOOL},
+         select=_from_stmt("valid_out = (target_lons >= -180) & (target_lons <= 180) & (target_lats <= 90) & (target_lats >= -90)",
+                           upto="if isinstance(valid_output_index, np.ma.MaskedArray):\n    valid_output_index = valid_output_index.filled(False)"),
+         post_guard=["return valid_output_index"], owners=["C02", "C03"]),
     # ---- C11 -----------------------------------------------------------------------------------
     dict(name="expand_slice", file="pyresample/slicer.py", func="expand_slice",
          params=[("small_slice", sl(INT))], returns=sl(INT), select=_whole, owners=["C11"]),
